@@ -70,8 +70,8 @@ def stepL2Par (st : St) (cmd : List String) (got : String) : Option (St × Verdi
             let exact : Verdict :=
               if reps.all Rep.wf then
                 let r := renderRep (f2 w' reps)
-                if r != rzS then some ("L2 parallel-aggregate model (w=" ++ toString w' ++ ") = Go representation; model: " ++ r.take 400)
-                else if !rz.wf then some ("well-formed result of " ++ fn ++ " on well-formed operands")
+                if !rz.wf then some ("well-formed result of " ++ fn ++ " on well-formed operands")
+                else if r != rzS then some ("L2 parallel-aggregate model (w=" ++ toString w' ++ ") = Go representation; model: " ++ r.take 400)
                 else none
               else none
             some (st', firstFail [
